@@ -364,6 +364,62 @@ theorem C10_check_sound (sys : Sys) (o : Outcome) (h : check sys o = true) :
   · intro e d he hd
     exact before_of_beforeB (ht4 e he d hd)
 
+/-! ## `Service.Start`'s notification hooks -/
+
+theorem runUntil_allOk (fail : Nat → Bool) : ∀ l : List Nat, (runUntil fail l).all (·.2) = true ↔ ∀ e, e ∈ l → fail e = false := by
+  intro l
+  induction l with
+  | nil => simp [runUntil]
+  | cons a l ih =>
+    cases h : fail a with
+    | true => simp [runUntil, h]
+    | false =>
+      simp only [runUntil, h, List.all_cons, Bool.true_and, List.mem_cons, forall_eq_or_imp, true_and]
+      simpa using ih
+
+/-- **hooks**: with `NotifyConfig` / `Ready` able to fail, the component start log is still `serviceStart`'s log — or,
+when a `NotifyConfig` fails, only its all-successful extension part (no pipeline component is started) — so every
+ordering / once theorem above applies to it; `Start` succeeds only if every component started and no hook failed -/
+theorem C10_start_hooks (sys : Sys) (failS : Comp → Bool) (failN failR : Nat → Bool) :
+    let t := serviceStartH sys failS failN failR
+    (t.exts ++ t.graph = serviceStart sys failS ∨
+      (t.exts ++ t.graph = extStart sys failS ∧ allOk (extStart sys failS) = true ∧ ∃ e, e ∈ sys.eorder ∧ failN e = true)) ∧
+    ((∀ e, e ∈ sys.eorder → failN e = false) → t.exts ++ t.graph = serviceStart sys failS) ∧
+    (t.ok = true → t.exts ++ t.graph = serviceStart sys failS ∧ allOk (serviceStart sys failS) = true ∧
+      ∀ e, e ∈ sys.eorder → failN e = false ∧ failR e = false) := by
+  have hN : (sys.eorder.map (fun e => (e, !(failN e)))).all (·.2) = true ↔ ∀ e, e ∈ sys.eorder → failN e = false := by
+    simp [List.all_eq_true]
+  cases h1 : allOk (extStart sys failS) with
+  | false =>
+    simp only [serviceStartH, serviceStart, h1]
+    refine ⟨Or.inl (by simp), fun _ => by simp, fun h => by simp at h⟩
+  | true =>
+    by_cases h2 : (sys.eorder.map (fun e => (e, !(failN e)))).all (·.2) = true
+    · have hN' := hN.mp h2
+      cases h3 : allOk (graphStart sys failS) with
+      | false =>
+        simp only [serviceStartH, serviceStart, h1, h2, h3]
+        refine ⟨Or.inl (by simp), fun _ => by simp, fun h => by simp at h⟩
+      | true =>
+        simp only [serviceStartH, serviceStart, h1, h2, h3]
+        refine ⟨Or.inl (by simp), fun _ => by simp, fun h => ?_⟩
+        simp only [Bool.not_true, Bool.false_eq_true, if_false] at h ⊢
+        refine ⟨by simp, ?_, fun e he => ⟨hN' e he, (runUntil_allOk failR _).mp h e he⟩⟩
+        have h1' : (extStart sys failS).all (·.2) = true := h1
+        have h3' : (graphStart sys failS).all (·.2) = true := h3
+        simp [allOk, List.all_append, h1', h3']
+    · have : ∃ e, e ∈ sys.eorder ∧ failN e = true := by
+        apply Classical.byContradiction
+        intro hne
+        apply h2
+        apply hN.mpr
+        intro e he
+        cases hf : failN e with
+        | false => rfl
+        | true => exact absurd ⟨e, he, hf⟩ hne
+      simp only [serviceStartH, serviceStart, h1, h2]
+      refine ⟨Or.inr (by simpa using this), fun hall => absurd (hN.mpr hall) h2, fun h => by simp at h⟩
+
 /-! ## an extension listed more than once -/
 
 theorem mem_dedupExts {l : List Ext} {e : Ext} (h : e ∈ dedupExts l) : e ∈ l := by
